@@ -27,6 +27,7 @@ import (
 	"github.com/mholt/caddy-l4/modules/l4tls"
 
 	"verif/mc/explore"
+	"verif/mc/hm/htls"
 	"verif/mc/mrun"
 	"verif/mc/runner"
 )
@@ -38,6 +39,7 @@ type ClientCfg struct {
 	Max     uint16   `json:"max"`
 	Ciphers int      `json:"ciphers"` // index into cipherSets
 	Curves  int      `json:"curves"`  // index into curveSets
+	Resume  bool     `json:"resume,omitempty"` // the hello of a second connection after a full handshake (ticket / PSK)
 }
 
 type Scn struct {
@@ -53,6 +55,95 @@ var curveSets = [][]tls.CurveID{nil, {tls.CurveP256}, {tls.X25519, tls.CurveP384
 func (c ClientCfg) tls() *tls.Config {
 	return &tls.Config{ServerName: c.Name, NextProtos: c.ALPN, MinVersion: c.Min, MaxVersion: c.Max,
 		CipherSuites: cipherSets[c.Ciphers], CurvePreferences: curveSets[c.Curves], InsecureSkipVerify: true}
+}
+
+// ---- resumption hellos ---------------------------------------------------------------------------
+
+// addrConn gives the pipe the same remote address as the capturing connection, so that the
+// client session cache (keyed by server name, else by remote address) hits.
+type addrConn struct{ net.Conn }
+
+func (addrConn) RemoteAddr() net.Addr { return &net.TCPAddr{} }
+
+var resumeServer = &tls.Config{Certificates: htls.ServerConfig.Certificates, MinVersion: tls.VersionTLS10}
+
+// resumedHello completes one real handshake against crypto/tls's server (which issues a
+// session ticket) and returns the ClientHello of the next connection of the same client:
+// a non-empty session_ticket extension up to TLS 1.2, a pre_shared_key extension in TLS 1.3.
+func resumedHello(cfg *tls.Config) ([]byte, error) {
+	cfg.ClientSessionCache = tls.NewLRUClientSessionCache(4)
+	c, s := net.Pipe()
+	done := make(chan struct{})
+	go func() {
+		defer close(done)
+		srv := tls.Server(s, resumeServer)
+		if srv.Handshake() == nil {
+			srv.Write([]byte{1})
+		}
+		io.Copy(io.Discard, srv)
+		srv.Close()
+	}()
+	cl := tls.Client(addrConn{c}, cfg)
+	err := cl.Handshake()
+	if err == nil {
+		_, err = io.ReadFull(cl, make([]byte, 1)) // TLS 1.3 tickets arrive after the handshake
+	}
+	cl.Close()
+	<-done
+	if err != nil {
+		return nil, err
+	}
+	return mrun.ClientHello(cfg), nil
+}
+
+// extLen returns the body length of extension id in a ClientHello record, -1 if absent.
+func extLen(record []byte, id uint16) int {
+	p := 5 + 4 + 2 + 32 // record header, handshake header, version, random
+	skip := func(lenBytes int) bool {
+		if p+lenBytes > len(record) {
+			return false
+		}
+		n := 0
+		for i := 0; i < lenBytes; i++ {
+			n = n<<8 | int(record[p+i])
+		}
+		p += lenBytes + n
+		return p <= len(record)
+	}
+	if !skip(1) || !skip(2) || !skip(1) || p+2 > len(record) {
+		return -1
+	}
+	p += 2
+	for p+4 <= len(record) {
+		t := uint16(record[p])<<8 | uint16(record[p+1])
+		n := int(record[p+2])<<8 | int(record[p+3])
+		if t == id {
+			return n
+		}
+		p += 4 + n
+	}
+	return -1
+}
+
+func helloOf(c ClientCfg, rep *runner.Report) []byte {
+	if !c.Resume {
+		return mrun.ClientHello(c.tls())
+	}
+	rec, err := resumedHello(c.tls())
+	if err != nil {
+		if rep != nil {
+			rep.Incident("RESUME-HANDSHAKE-FAILED")
+			rep.Note(fmt.Sprintf("resume handshake failed for %v: %v", c, err))
+		}
+		return nil
+	}
+	if extLen(rec, 35) <= 0 && extLen(rec, 41) <= 0 {
+		if rep != nil {
+			rep.Incident("RESUME-HELLO-WITHOUT-TICKET")
+		}
+		return nil
+	}
+	return rec
 }
 
 // ---- reference: what crypto/tls's server sees for these bytes --------------------------------
@@ -249,6 +340,12 @@ func scenarios(tier string, yield func(any) bool) {
 						if !yield(&Scn{Cfg: ClientCfg{Name: n, ALPN: a, Min: v[0], Max: v[1], Ciphers: ci, Curves: cu}}) {
 							return
 						}
+						// the same client reconnecting (Ed25519 server certificate: TLS 1.2 and later)
+						if v[1] >= tls.VersionTLS12 && (len(n) < 100 || ci == 0) {
+							if !yield(&Scn{Cfg: ClientCfg{Name: n, ALPN: a, Min: v[0], Max: v[1], Ciphers: ci, Curves: cu, Resume: true}}) {
+								return
+							}
+						}
 					}
 				}
 			}
@@ -261,13 +358,16 @@ func main() {
 	runner.Main(&runner.Harness{
 		ID:    "C07",
 		Level: "model_checking",
-		Rule: "ClientHellos emitted by crypto/tls for the product of server names {none, a.test, 252 characters, punycode, upper case, sub-sub-domain} x ALPN lists {none,[h2],[h2,http/1.1],[255-byte id],[http/1.1]} x version ranges {1.0-1.3, 1.2, 1.3, 1.2-1.3, 1.0-1.1} x 3 cipher preference lists x 3 curve preference lists; each compared field by field (server name, ALPN, versions, cipher suites, curves, signature schemes, point formats) with crypto/tls's own view of the same bytes and through 5 sni/alpn matcher configurations; single-byte mutations {00, FF, +1, -1} at every position of the hellos with default cipher/curve lists (all hellos in thorough), compared whenever crypto/tls still accepts them; proper prefixes (0..8, every 16th, last 8; all in thorough) must be undecided; all 255 other record types must be rejected",
-		Assumptions: []string{"session resumption hellos (tickets / PSK) are not generated", "a ClientHello fragmented over several TLS records is not generated (crypto/tls clients never do)"},
+		Rule: "ClientHellos emitted by crypto/tls for the product of server names {none, a.test, 252 characters, punycode, upper case, sub-sub-domain} x ALPN lists {none,[h2],[h2,http/1.1],[255-byte id],[http/1.1]} x version ranges {1.0-1.3, 1.2, 1.3, 1.2-1.3, 1.0-1.1} x 3 cipher preference lists x 3 curve preference lists, each also as the hello of the same client reconnecting after a full handshake (non-empty session_ticket extension up to TLS 1.2, pre_shared_key + psk_key_exchange_modes in TLS 1.3); each compared field by field (server name, ALPN, versions, cipher suites, curves, signature schemes, point formats) with crypto/tls's own view of the same bytes and through 5 sni/alpn matcher configurations; single-byte mutations {00, FF, +1, -1} at every position of the hellos with default cipher/curve lists (all hellos in thorough), compared whenever crypto/tls still accepts them; proper prefixes (0..8, every 16th, last 8; all in thorough) must be undecided; all 255 other record types must be rejected",
+		Assumptions: []string{"resumption hellos come from one real handshake against crypto/tls's server with an Ed25519 certificate (TLS 1.2 ticket / TLS 1.3 PSK); their random parts differ from run to run, failures carry the exact record", "a ClientHello fragmented over several TLS records is not generated (crypto/tls clients never do)"},
 		Scenarios: scenarios,
 		Run: func(tier string, scAny any, rep *runner.Report) {
 			sc := scAny.(*Scn)
 			rep.Scenarios++
-			record := mrun.ClientHello(sc.Cfg.tls())
+			record := helloOf(sc.Cfg, rep)
+			if sc.Cfg.Resume && record == nil {
+				return // counted as incident
+			}
 			fail := func(rec []byte) func(sig, msg string) {
 				return func(sig, msg string) {
 					one := *sc
@@ -317,7 +417,7 @@ func main() {
 			sc := scAny.(*Scn)
 			rec, _ := hex.DecodeString(sc.Hello)
 			if len(rec) == 0 {
-				rec = mrun.ClientHello(sc.Cfg.tls())
+				rec = helloOf(sc.Cfg, nil)
 			}
 			var out []explore.Failure
 			f := func(sig, msg string) { out = append(out, explore.Failure{Sig: sig, Msg: msg}) }
